@@ -17,6 +17,7 @@ GRID = [1000, 2000, 5000, 10000, 50000, 100000, 250000, 1000000, 3000000]
 def gen_script(rng, nops):
     K = 5
     lines = ["ecu.new"]
+    defs = []
     for k in range(K):
         ops = []
         # callbacks 3 and 4 do nothing; only they are subscribed from inside callbacks (a subscriber that subscribes
@@ -33,7 +34,23 @@ def gen_script(rng, nops):
                 ops.append(f"U:{rng.randrange(K)}")
             else:
                 ops.append(f"T:{rng.choice([1, 500, 3000, 60000, 260000])}")
-        lines.append(f"cbdef 0 {k} {rng.randrange(2)} " + " ".join(ops))
+        defs.append((rng.randrange(2), ops))
+    # a callback may re-arm callbacks, but not callbacks that themselves re-arm callbacks: timers that breed timers
+    # are an application fork bomb (the real pass then takes seconds of real time), not a behaviour worth comparing
+    adders = {k for k, (_, ops) in enumerate(defs) if any(o.startswith('A:') for o in ops)}
+    for k, (ret, ops) in enumerate(defs):
+        fixed, rearmed = [], False
+        for o in ops:
+            if o.startswith('A:'):
+                f = o.split(':')
+                if int(f[2]) in adders:
+                    if int(f[2]) == k and ret == 0 and not rearmed:
+                        rearmed = True          # a one-shot that re-arms itself once: the number of timers stays constant
+                    else:
+                        f[2] = str(rng.choice([3, 4]))
+                o = ':'.join(f)
+            fixed.append(o)
+        lines.append(f"cbdef 0 {k} {ret} " + " ".join(fixed))
     lines.append("preddef 0 0 [5,9]")
     deadlines = []
     now = 0
